@@ -157,6 +157,12 @@ def run(repo, tier):
     res.assumptions = ['numpy boolean indexing selects exactly the True pixels']
     overlap_cutouts(repo, res)
     photometry_loop(repo, res)
+    # the overlap slices every sum/area depends on (shared with C01)
+    from .C01 import bbox_rules
+    bbox_rules(repo, res)
+    # every result of area_overlap / do_photometry comes out of the per-aperture loop (no analytic short cut)
+    SP.returns_match(repo, res, 'SPEC', f'{PA}.area_overlap', ['areas[0]', 'areas'], 'the summed mask weights of the loop (scalar or array)')
+    SP.returns_match(repo, res, 'SPEC', f'{PA}.do_photometry', ['(aperture_sums, aperture_sum_errs)'], 'the sums and errors accumulated by the loop')
     pure_methods(repo, res)
     table_assembly(repo, res)
     run_loops(repo, res, MODS, rules=('LP1', 'LP1b'))
